@@ -37,6 +37,16 @@ pub fn corpus(thorough: bool) -> Vec<Program> {
     take(4, if thorough { 2 } else { 16 }, &mut out);
     take(2, if thorough { 5 } else { 60 }, &mut out);
     take(1, if thorough { 40 } else { 900 }, &mut out);
+    // repeated and distinct tags composed from a declaration and its use
+    out.push(single(vec![
+        Stmt::Let {
+            anns: vec!["tags: [t3, t1, t2, t1]".into()],
+            name: "x".into(),
+            params: vec![],
+            body: xfer(Method::Get, E::Content(vec![], None)),
+        },
+        Stmt::Res(rel(uri_lit(&["a"]), vec![E::Ann(vec![], Box::new(var("x")), Some("tags: [t2, t4, t3, t0]".into()))])),
+    ]));
     // a program built for this property: >= 3 entries in every collection
     let ex = "examples: {e3: u3, e1: u1, e2: u2}, tags: [c, a, b]";
     out.push(Program {
@@ -282,7 +292,9 @@ impl Engine for C06 {
             }
             "cli" => {
                 let step = if thorough { 4 } else { 8 };
-                for (i, t) in texts.iter().enumerate().step_by(step) {
+                let n = texts.len();
+                // every step-th program and always the two programs built for this property
+                for (i, t) in texts.iter().enumerate().filter(|(i, _)| i % step == 0 || *i + 2 >= n) {
                     if sink.expired() {
                         return;
                     }
